@@ -267,27 +267,36 @@ def run_check(pid, tier, seed, jobs, replay=None):
     for sig in sorted(by_sig):
         vs = by_sig[sig]
         is_known = findings.is_known(known, sig)
-        for n, v in enumerate(vs[:1]):
-            path = os.path.join(OUT, "replays", f"{pid}-{_slug(sig)}-{n}.json")
+        path = os.path.join(OUT, "replays", f"{pid}-{_slug(sig)}-0.json")
+        believed = None
+        for n, v in enumerate(vs):
+            # believe a violation only if it reproduces from its replay file: alone (this process), else in a fresh
+            # process, else after the cases that ran before it in its worker (only tried for the first witnesses)
             with open(path, "w") as f:
                 json.dump({"property": pid, "signature": sig, "case": v["case"], "expected": v["expected"],
                            "observed": v["observed"], "tier": tier, "seed": seed}, f, indent=1, default=repr)
-            # believe a violation only if it reproduces from its replay file in a fresh run
             chk = Stats()
-            mod.run_case(json.load(open(path))["case"], chk)
-            if not any(x["signature"] == sig for x in chk.violations) and not _reproduce_with_history(pid, path, v, cases):
-                # not believed; the run is only usable if some other violation does reproduce
-                unreproduced.append(sig)
-                os.remove(path)
-                continue
-            if is_known:
-                n_known += 1
-                print(f"KNOWN-FINDING: property={pid} {sig}: {findings.text(known, sig)} (replay={path})")
-            else:
-                n_new += 1
-                rc = 1
-                print(f"VIOLATION property={pid} replay={path}")
-                print(f"  signature={sig} expected={v['expected']!r} observed={v['observed']!r}")
+            try:
+                mod.run_case(json.load(open(path))["case"], chk)
+            except Exception:  # noqa: BLE001
+                pass
+            if any(x["signature"] == sig for x in chk.violations) or (n < 2 and _reproduce_with_history(pid, path, v, cases)):
+                believed = v
+                break
+        if believed is None:
+            # not believed; the run is only usable if some other violation does reproduce
+            unreproduced.append(sig)
+            os.remove(path)
+            continue
+        v = believed
+        if is_known:
+            n_known += 1
+            print(f"KNOWN-FINDING: property={pid} {sig}: {findings.text(known, sig)} (replay={path})")
+        else:
+            n_new += 1
+            rc = 1
+            print(f"VIOLATION property={pid} replay={path}")
+            print(f"  signature={sig} expected={v['expected']!r} observed={v['observed']!r}")
     if unreproduced:
         for sig in unreproduced[:5]:
             print(f"UNREPRODUCED signature={sig} (observed once, did not recur from its replay file: not counted)")
